@@ -1,3 +1,4 @@
+import os
 # C05 - Expected-name check accepts only certificates issued for that name
 def NAMES(name, mode, l, tier="quick", **kw):
     h = dict(
@@ -14,14 +15,20 @@ def NAMES(name, mode, l, tier="quick", **kw):
     return h
 
 
-HARNESSES = [
+# parse side of C05: what parseGeneralNames stores for dNSName / rfc822Name / URI
+# never contains an embedded NUL or non-printable byte (harness of C09, same code)
+_g9 = {"__file__": os.path.join(os.path.dirname(__file__), "..", "C09", "spec.py"), "COMMON": COMMON}
+exec(compile(open(_g9["__file__"]).read(), _g9["__file__"], "exec"), _g9)
+GN = [dict(h, dir="C09", name="gn_parse_names", cases=[c for c in h["cases"] if c.get("tier", "quick") == "quick"])
+      for h in _g9["HARNESSES"] if h["name"] == "gn_parse"]
+HARNESSES = GN + [
     NAMES("wildcard", 1, 6),
     NAMES("wildcard_long", 1, 10, tier="thorough"),
     NAMES("name_rule", 2, 5, renames={"crypto/keyformat/x509.c": ["psX509AuthenticateCert", "validateDateRange"]}),
 ]
 PROPERTY = dict(level='model_checking',
-    claim='wildcardMatch equals a label-based RFC 6125 reference on all strings up to the bound; the name section of matrixValidateCertsExt accepts exactly when a SAN of the right kind matches (dNSName incl. wildcard, rfc822Name, 4-octet iPAddress as exact dotted quad) or, with no supported SAN, the subject CN.',
+    claim='wildcardMatch equals a label-based RFC 6125 reference on all strings up to the bound; the name section of matrixValidateCertsExt accepts exactly when a SAN of the right kind matches (dNSName incl. wildcard, rfc822Name, 4-octet iPAddress as exact dotted quad) or, with no supported SAN, the subject CN; parseGeneralNames stores only printable text without embedded NUL for dNSName / rfc822Name / URI entries.',
     bounds='names <= 6 bytes (thorough 10) over all 256 byte values; SAN lists of <= 2 entries of any kind; expected names <= 16 bytes',
     outside='longer names; psX509ValidateGeneralName itself is used as the precondition on the expected name, not decided',
-    explanation='wildcardMatch equals a label-based RFC 6125 reference on all strings up to the bound; the name section of matrixValidateCertsExt accepts exactly when a SAN of the right kind matches (dNSName incl. wildcard, rfc822Name, 4-octet iPAddress as exact dotted quad) or, with no supported SAN, the subject CN.',
+    explanation='wildcardMatch equals a label-based RFC 6125 reference on all strings up to the bound; the name section of matrixValidateCertsExt accepts exactly when a SAN of the right kind matches (dNSName incl. wildcard, rfc822Name, 4-octet iPAddress as exact dotted quad) or, with no supported SAN, the subject CN; parseGeneralNames stores only printable text without embedded NUL for dNSName / rfc822Name / URI entries.',
     assumptions=[])
